@@ -547,8 +547,10 @@ export class Env {
           return false;
         }
         if (p.opt && !q.opt) return false;
-        if (p.opt || q.opt) return null;
-        const r = this.assignable(p.t, q.t);
+        // an optional target property also takes `undefined` (no exactOptionalPropertyTypes): what the
+        // source may hold there - its type, and `undefined` if it is optional itself - is compared
+        // with the target's type or undefined
+        const r = this.assignable(p.t, q.opt ? C.union([q.t, { c: "nullish", w: "undefined" }]) : q.t);
         if (r == null) return null;
         if (!r) return false;
       }
